@@ -1,6 +1,7 @@
 """C08 - the SQLite store behaves as a keyed collection over any operation history.
 
-proof phase   : Props/C08.v (Db/DbModel.v tables+statements+registries, Db/DbSpec.v dictionary, Db/DbRefine.v refinement)
+proof phase   : Props/C08.v (Db/DbModel.v tables+statements+registries, Db/DbSpec.v dictionary, Db/DbRefine.v refinement, Db/DbBatch.v batching of
+                isotherms_from_db over the batch size generated from the source, Gen/DbShapeGen.v)
 correspondence: random operation histories over 1-3 fresh database files (db_create) on the implementation vs the model executed
                 inside Coq: after EVERY call the outcome class, the number of SQL statements issued, the row-level change of every
                 table (read through an independent sqlite3 connection), the AUTOINCREMENT counters, the registries, the result of
@@ -34,13 +35,19 @@ MANIFEST = dict(
          "numeric-looking text through REAL affinity, iso_type leaking into retrieved isotherms, missing isotherm_properties_type table, list-valued "
          "material properties). PARTIAL: the refinement tables -> dictionary for isotherm uploads WITH auto-insert (they read the registries) is "
          "not proved; it is evaluated inside Coq (dictionary model vs abstraction of the tables) on every step of every history of the run; the "
-         "invariant is decided inside Coq for the content db_create ships. The "
+         "invariant is decided inside Coq for the content db_create ships. BATCHING: the model of isotherms_from_db has the structure of the code (one "
+         "SELECT, then two per batch of `grouped(alldata, n)`, n = the batch size a fail-closed translator reads from the source on every run); for EVERY "
+         "batch size >= 1, every content and every number of matching rows the batched retrieval is proved equal to the plain retrieval = the dictionary's "
+         "isotherms satisfying the criteria (induction over the batches), with 1 + 2 * ceil(rows / n) statements - the count compared with the "
+         "cursor.execute calls of every retrieval, on stores larger than the batch size too (every run builds stores of more than one and more than two "
+         "batches and retrieves them with and without criteria, comparing with rows read through an independent connection). The "
          "hand-written model is tied to the code on every run by executing it inside Coq against the implementation on random histories (outcome, "
          "statement count, every table row, counters, registries, retrieval results after every call).",
     note="Trusted: Coq kernel; SQLite/sqlite3 behaving as the constraint model says (validated by the table-level comparison after every call); "
          "the harness (interning of strings/numbers to integers, independent dump connection); isotherm construction / iso_id (C05) as oracle.",
     technique="Coq proofs over a statement-tree model (induction over programs and histories) + dictionary model and table model executed in Coq against real histories")
 
+EXTRA_TARGETS = ['Db/DbShow.vo']
 HEADER = """From Coq Require Import ZArith List Bool.
 From PG Require Import Db.DbModel Db.DbSpec Db.DbShow.
 Import ListNotations. Open Scope Z_scope.
@@ -49,8 +56,8 @@ TABLES = ['adsorbates', 'adsorbate_properties', 'adsorbate_properties_type', 'ma
           'material_properties_type', 'isotherm_type', 'isotherms', 'isotherm_properties', 'isotherm_data']
 SEQ = ['adsorbates', 'adsorbate_properties', 'adsorbate_properties_type', 'materials', 'material_properties', 'material_properties_type',
        'isotherm_type', 'isotherm_properties', 'isotherm_data']
-NUMPOOL = {'1e5': 100000.0, '12': 12.0, '0.5': 0.5, '-3': -3.0}
-OC = {0: 'Ok', 3: 'ParsingError', 10: 'OperationalError', 11: 'other', 12: 'died'}
+NUMPOOL = {'1e5': 100000.0, '12': 12.0, '0.5': 0.5, '-3': -3.0, '0': 0.0}
+OC = {0: 'Ok', 3: 'ParsingError', 10: 'OperationalError', 11: 'other', 12: 'died', 13: 'other:IntegrityError', 14: 'other:InterfaceError'}
 UNITS = dict(pressure_mode='absolute', pressure_unit='bar', loading_basis='molar', loading_unit='mmol', material_basis='mass',
              material_unit='g', temperature_unit='K')
 
@@ -150,24 +157,53 @@ def table_diff(old, new):
 
 
 # ------------------------------------------------------------------ the implementation side
+class InjectedInterrupt(KeyboardInterrupt):
+    """a KeyboardInterrupt raised by the harness (told apart from a real Ctrl-C)"""
+
+
+def fault_exception(name, where):
+    """the exception object of an injected fault: the sqlite3 classes, builtin Exception classes, BaseException-only classes"""
+    msg = 'injected fault at %s' % where
+    if hasattr(sqlite3, name) and isinstance(getattr(sqlite3, name), type) and issubclass(getattr(sqlite3, name), Exception):
+        return getattr(sqlite3, name)(msg)
+    if name == 'KeyboardInterrupt':
+        return InjectedInterrupt(msg)
+    import builtins
+    return getattr(builtins, name)(msg)
+
+
 class SqlProxy:
-    """stands for the module `sqlite3` inside pygaps.parsing.sqlite: counts cursor.execute calls, can fail / exit at call k"""
+    """stands for the module `sqlite3` inside pygaps.parsing.sqlite: counts cursor.execute calls, records the calls made on every
+    connection (connect / commit / rollback / close), can fail / exit at execute call k and at commit"""
 
     def __init__(self):
         self.n = 0
-        self.fault = None          # ('raise', k, exception class name) | ('exit', k) | ('exit_before_commit',) | ('exit_after_commit',)
+        self.fault = None          # ('raise', k, class name) | ('commit_raise', class name) | ('exit', k) | ('exit_before_commit',) | ('exit_after_commit',)
         self.log = None
+        self.events = []           # calls made on the connections opened since the last reset, in order
+        self.conns = []
+        self.timeout = None        # busy timeout handed to sqlite3.connect (None: the library's own)
 
     def __getattr__(self, name):
         return getattr(sqlite3, name)
 
+    def reset(self):
+        self.n = 0
+        self.events = []
+        self.conns = []
+
     def connect(self, *a, **k):
-        return _Conn(sqlite3.connect(*a, **k), self)
+        if self.timeout is not None:
+            k.setdefault('timeout', self.timeout)
+        c = _Conn(sqlite3.connect(*a, **k), self)
+        self.events.append('connect')
+        self.conns.append(c)
+        return c
 
 
 class _Conn:
     def __init__(self, real, px):
-        object.__setattr__(self, '_r', real); object.__setattr__(self, '_px', px)
+        object.__setattr__(self, '_r', real); object.__setattr__(self, '_px', px); object.__setattr__(self, 'closed', False)
 
     def __setattr__(self, k, v):
         setattr(self._r, k, v)
@@ -180,11 +216,23 @@ class _Conn:
 
     def commit(self):
         f = self._px.fault
+        self._px.events.append('commit')
         if f and f[0] == 'exit_before_commit':
             os._exit(41)
+        if f and f[0] == 'commit_raise':
+            raise fault_exception(f[1], 'commit')
         self._r.commit()
         if f and f[0] == 'exit_after_commit':
             os._exit(42)
+
+    def rollback(self):
+        self._px.events.append('rollback')
+        return self._r.rollback()
+
+    def close(self):
+        self._px.events.append('close')
+        object.__setattr__(self, 'closed', True)
+        return self._r.close()
 
 
 class _Cur:
@@ -198,7 +246,13 @@ class _Cur:
             px.log.append(sql.split()[0].upper())
         f = px.fault
         if f and f[0] == 'raise' and f[1] == px.n:
-            raise getattr(sqlite3, f[2])('injected fault at statement %d' % px.n)
+            # "statement k raises e": like the real Cursor.execute, which first resets the statement still pending on this cursor (a SELECT
+            # that was only partly fetched) and then fails while preparing / binding / stepping the new one
+            try:
+                self._r.fetchall()
+            except sqlite3.Error:
+                pass
+            raise fault_exception(f[2], 'statement %d' % px.n)
         if f and f[0] == 'exit' and f[1] == px.n:
             os._exit(40)
         return self._r.execute(sql, *a)
@@ -206,8 +260,18 @@ class _Cur:
     def __iter__(self):
         return iter(self._r)
 
+    def __next__(self):
+        return next(self._r)
+
     def __getattr__(self, k):
         return getattr(self._r, k)
+
+
+def scratch_dir(name):
+    """directory for the database files of a campaign: memory-backed when the machine has /dev/shm (commits need no disk sync; process death is
+    modelled by os._exit, which loses no written page either way), else under vlib.SCRATCH"""
+    base = '/dev/shm' if os.path.isdir('/dev/shm') and os.access('/dev/shm', os.W_OK) else vlib.SCRATCH
+    return os.path.join(base, 'verif_%s' % name if base == '/dev/shm' else name)
 
 
 class Impl:
@@ -222,12 +286,27 @@ class Impl:
         self.reg0 = (list(ADSORBATE_LIST), list(MATERIAL_LIST))
         self.props0 = {id(x): dict(x.properties) for x in self.reg0[0]}
         self.px = SqlProxy()
+        self.keep_exc = False      # keep the exception of the last call referenced (im.last_exc), as a caller's `except ... as e:` block does
+        self.last_exc = None
         self.workdir = workdir
         os.makedirs(workdir, exist_ok=True)
         self.template = os.path.join(workdir, 'template.db')
         if os.path.exists(self.template):
             os.remove(self.template)
         db_create(self.template)                      # pygaps.utilities.sqlite_db_creator.db_create: schema + shipped adsorbates + types
+        # a second kind of freshly created file, for the stores with hundreds of isotherms: the same schema (PRAGMAS) and isotherm types, but only
+        # two of the shipped adsorbates - created through the same public functions db_create uses
+        from pygaps.utilities.sqlite_db_pragmas import PRAGMAS
+        from pygaps.utilities.sqlite_utilities import db_execute_general
+        self.lean = os.path.join(workdir, 'lean.db')
+        if os.path.exists(self.lean):
+            os.remove(self.lean)
+        for pragma in PRAGMAS:
+            db_execute_general(pragma, self.lean, verbose=False)
+        for name in SHIPPED:
+            S.adsorbate_to_db(pygaps.Adsorbate.find(name), db_path=self.lean, autoinsert_properties=True, verbose=False)
+        for t in ('isotherm', 'pointisotherm', 'modelisotherm'):
+            S.isotherm_type_to_db({'type': t}, db_path=self.lean, verbose=False)
         self.reset_registry()
         S.sqlite3 = self.px
 
@@ -242,9 +321,9 @@ class Impl:
         for x in self.reg0[0]:
             x.properties.clear(); x.properties.update(self.props0[id(x)])
 
-    def fresh(self, k):
+    def fresh(self, k, lean=False):
         p = os.path.join(self.workdir, 'f%d.db' % k)
-        shutil.copyfile(self.template, p)
+        shutil.copyfile(self.lean if lean else self.template, p)
         for ext in ('-journal', '-wal', '-shm'):
             if os.path.exists(p + ext):
                 os.remove(p + ext)
@@ -322,7 +401,8 @@ def apply_op(im, op, path, I):
     k = op['k']
     obj = None
     res = None
-    im.px.n = 0
+    im.px.reset()
+    im.last_exc = None
     try:
         if k == 'EntUp':
             cls = pygaps.Adsorbate if op['e'] == 'ads' else pygaps.Material
@@ -374,9 +454,13 @@ def apply_op(im, op, path, I):
             raise AssertionError(k)
         res = call()
         oc = 'Ok'
-    except Exception as e:  # noqa
-        n = type(e).__name__
+    except BaseException as e:  # noqa
+        if not isinstance(e, Exception) and 'injected fault' not in str(e):
+            raise                                          # a real KeyboardInterrupt / SystemExit
+        n = 'KeyboardInterrupt' if isinstance(e, InjectedInterrupt) else type(e).__name__
         oc = n if n in ('ParsingError', 'OperationalError') else 'other:' + n
+        if im.keep_exc:
+            im.last_exc = e                                # its traceback keeps the frames of the failed call (and their locals) alive
     return oc, im.px.n, term, res, obj
 
 
@@ -443,6 +527,7 @@ UADS = ['ua_x', 'ua_y', 'ua_z']
 SHIPPED = ['nitrogen', 'argon']
 PTYPES = ['density', 'note', 'tag', 'molar_mass', 'grade']
 WORDS = ['alpha', 'beta', 'gamma', 'x y', 'ok']
+ZEROLIKE = [0.0, '', 0, -0.0]
 
 
 def gen_value(rnd, numeric_text=0.08, none=0.03, lists=0.06):
@@ -452,6 +537,8 @@ def gen_value(rnd, numeric_text=0.08, none=0.03, lists=0.06):
     if r < none: return None
     r -= none
     if r < lists: return [rnd.choice(WORDS), rnd.choice(WORDS) + '2']
+    if rnd.random() < 0.12:
+        return rnd.choice(ZEROLIKE)                  # storable values that are falsy in Python
     return rnd.choice([rnd.choice(WORDS), round(rnd.uniform(0.5, 9.5), 2), float(rnd.randint(1, 5)), rnd.randint(1, 9)])
 
 
@@ -460,8 +547,8 @@ def gen_iso(rnd):
     meta = {}
     for key in rnd.sample(['operator', 'batch', 'note', 'flag', 'run'], rnd.randint(0, 3)):
         r = rnd.random()
-        meta[key] = (rnd.choice(WORDS) if r < 0.5 else rnd.choice(sorted(NUMPOOL)) if r < 0.6 else rnd.randint(1, 9) if r < 0.7
-                     else rnd.choice([True, False]) if r < 0.8 else round(rnd.uniform(1, 5), 3))
+        meta[key] = (rnd.choice(WORDS) if r < 0.45 else rnd.choice(sorted(NUMPOOL)) if r < 0.55 else rnd.randint(1, 9) if r < 0.63
+                     else rnd.choice([True, False]) if r < 0.73 else rnd.choice(ZEROLIKE) if r < 0.85 else round(rnd.uniform(1, 5), 3))
     if rnd.random() < 0.05:
         meta['pressure_mode'] = 'relative'        # the constructor sets pressure_unit None: NOT NULL refuses the upload
     spec = dict(cls=cls, mat=rnd.choice(MATS), ads=rnd.choice(UADS + SHIPPED + SHIPPED), T=rnd.choice([77.0, 87.3, 298.15, 77]), meta=meta)
@@ -517,6 +604,171 @@ def gen_history(rnd, nfiles, maxlen):
     return H
 
 
+def batch_sizes(module):
+    """the batch sizes used by the store, read from the source of the module under test: literal sizes handed to the batching helpers
+    (grouped(x, n), cursor.fetchmany(n), cursor.arraysize = n).  A changed batch size is followed; nothing found -> [100]"""
+    import ast
+    out = set()
+    try:
+        tree = ast.parse(open(module.__file__, encoding='utf8').read())
+    except (OSError, SyntaxError):
+        return [100]
+    for n in ast.walk(tree):
+        if isinstance(n, ast.Call):
+            fn = n.func.id if isinstance(n.func, ast.Name) else n.func.attr if isinstance(n.func, ast.Attribute) else None
+            lits = [a.value for a in list(n.args) + [k.value for k in n.keywords] if isinstance(a, ast.Constant) and type(a.value) is int]
+            if fn in ('grouped', 'fetchmany', 'batched', 'islice') and lits:
+                out.update(v for v in lits if v >= 2)
+        if isinstance(n, ast.Assign) and any(isinstance(t, ast.Attribute) and t.attr == 'arraysize' for t in n.targets) \
+                and isinstance(n.value, ast.Constant) and type(n.value.value) is int:
+            out.add(n.value.value)
+    return sorted(v for v in out if v <= 2000) or [100]
+
+
+def gen_bulk(rnd, n, split, per_check=40):
+    """a store holding n isotherms on one file (more rows than a batch), retrieved with and without criteria, then deletions through retrieved
+    objects of late rows and retrieval again.  `split`: how many of them go to material m_a (the others to m_b)."""
+    H = [dict(k='EntUp', f=0, e='mat', name='m_a', props={'density': 1.5}, auto=True, ow=False),
+         dict(k='EntUp', f=0, e='mat', name='m_b', props={}, auto=True, ow=False),
+         dict(k='EntUp', f=0, e='ads', name='ua_x', props={'molar_mass': 44.0}, auto=True, ow=False)]
+    temps = [77.0, 87.3, 298.15]
+    for i in range(n):
+        cls = 'point' if i % 9 == 4 else 'model' if i % 13 == 7 else 'base'
+        spec = dict(cls=cls, mat='m_a' if i < split else 'm_b', ads=['nitrogen', 'ua_x', 'argon'][i % 3], T=temps[(i // 3) % 3],
+                    meta={'run': i + 0.5, 'batch': WORDS[i % len(WORDS)]})
+        if rnd.random() < 0.1:
+            spec['meta']['flag'] = rnd.choice([True, False])
+        if cls == 'point':
+            spec['p'] = [0.1, 0.2 + i / 1000.0]; spec['l'] = [0.5, 1.0 + i / 1000.0]
+        if cls == 'model':
+            spec['K'] = round(1.0 + i / 100.0, 3)
+        H.append(dict(k='IsoUp', f=0, iso=spec, am=False, aa=False, again=False, verify=(i % per_check == per_check - 1 or i == n - 1)))
+    crits = [{}, {'material': 'm_a'}, {'material': 'm_b'}, {'adsorbate': 'nitrogen'}, {'iso_type': 'isotherm'}, {'temperature': 77.0},
+             {'material': 'm_b', 'iso_type': 'pointisotherm'}, {'adsorbate': 'ua_x', 'temperature': 87.3}]
+    for c in crits:
+        H.append(dict(k='IsoGet', f=0, crit=c))
+    # deletions of rows that sit in the last / a middle batch, through the object retrieved from the file, by id, through the stored object
+    H.append(dict(k='IsoDel', f=0, how='retrieved', pick=n - 1))
+    H.append(dict(k='IsoDel', f=0, how='id', pick=n // 2))
+    H.append(dict(k='IsoDel', f=0, how='object', pick=0))
+    for c in rnd.sample(crits, 3) + [{}]:
+        H.append(dict(k='IsoGet', f=0, crit=c))
+    return H
+
+
+def gen_scenarios(rnd):
+    """structured histories (names and values drawn at random) for interaction patterns that random interleavings reach only by luck:
+    deleting an item that has properties while it is still referenced, then after the reference is gone; overwriting one of several items
+    so that properties are dropped / changed / added, overwriting an absent item, re-uploading a present one; a type in use"""
+    val = lambda: gen_value(rnd, numeric_text=0, none=0, lists=0)      # noqa
+    out = []
+    # -- referenced deletes
+    m, a = rnd.choice(MATS), rnd.choice(UADS)
+    pm, pa = rnd.sample(PTYPES, 2), rnd.sample(PTYPES, 2)
+    iso = dict(cls=rnd.choice(['point', 'model', 'base']), mat=m, ads=a, T=rnd.choice([77.0, 87.3]), meta={'operator': rnd.choice(WORDS)})
+    if iso['cls'] == 'point':
+        iso.update(p=[0.1, 0.25], l=[0.5, 1.25])
+    if iso['cls'] == 'model':
+        iso['K'] = 1.5
+    out.append((1, [
+        dict(k='EntUp', f=0, e='mat', name=m, props={t: val() for t in pm}, auto=True, ow=False),
+        dict(k='EntUp', f=0, e='ads', name=a, props={t: val() for t in pa}, auto=True, ow=False),
+        dict(k='IsoUp', f=0, iso=iso, am=False, aa=False, again=False),
+        dict(k='EntDel', f=0, e='mat', name=m, bystr=rnd.random() < 0.5), dict(k='EntGet', f=0, e='mat'),
+        dict(k='EntDel', f=0, e='ads', name=a, bystr=rnd.random() < 0.5), dict(k='EntGet', f=0, e='ads'),
+        dict(k='TyDel', f=0, t='iso', ty={'point': 'pointisotherm', 'model': 'modelisotherm', 'base': 'isotherm'}[iso['cls']]),
+        dict(k='IsoGet', f=0, crit={'material': m}), dict(k='IsoDel', f=0, how=rnd.choice(['id', 'object'])),
+        dict(k='EntDel', f=0, e='mat', name=m, bystr=False), dict(k='EntGet', f=0, e='mat'),
+        dict(k='EntDel', f=0, e='ads', name=a, bystr=True), dict(k='EntGet', f=0, e='ads'), dict(k='IsoGet', f=0, crit={})]))
+    # -- overwrites among several items with several properties
+    for e, pool in (('mat', MATS), ('ads', UADS)):
+        n1, n2, n3 = rnd.sample(pool, 3)
+        p1, p2, p3, p4 = rnd.sample(PTYPES, 4)
+        out.append((1, [
+            dict(k='EntUp', f=0, e=e, name=n1, props={p1: val(), p2: val()}, auto=True, ow=False),
+            dict(k='EntUp', f=0, e=e, name=n2, props={p2: val(), p3: val()}, auto=True, ow=False),
+            dict(k='EntUp', f=0, e=e, name=n2, props={p3: val()}, auto=True, ow=True), dict(k='EntGet', f=0, e=e),
+            dict(k='EntUp', f=0, e=e, name=n1, props={p1: val(), p4: val()}, auto=rnd.random() < 0.5, ow=True), dict(k='EntGet', f=0, e=e),
+            dict(k='EntUp', f=0, e=e, name=n3, props={p1: val()}, auto=True, ow=True),
+            dict(k='EntUp', f=0, e=e, name=n1, props={p2: val()}, auto=True, ow=False),
+            dict(k='EntUp', f=0, e=e, name=n2, props={}, auto=True, ow=True), dict(k='EntGet', f=0, e=e),
+            dict(k='EntDel', f=0, e=e, name=n2, bystr=rnd.random() < 0.5), dict(k='EntGet', f=0, e=e),
+            dict(k='EntUp', f=0, e=e, name=n2, props={p4: val()}, auto=True, ow=False), dict(k='EntGet', f=0, e=e)]))
+    # -- a property type in use, overwritten, deleted
+    for t, e, pool in (('mat', 'mat', MATS), ('ads', 'ads', UADS)):
+        ty, n = rnd.choice(PTYPES), rnd.choice(pool)
+        out.append((1, [
+            dict(k='TyUp', f=0, t=t, ty=ty, unit=rnd.choice([None, 'K']), desc=rnd.choice([None, 'some text']), ow=False),
+            dict(k='EntUp', f=0, e=e, name=n, props={ty: val()}, auto=False, ow=False),
+            dict(k='TyDel', f=0, t=t, ty=ty), dict(k='TyUp', f=0, t=t, ty=ty, unit='g/cm3', desc=None, ow=True), dict(k='TyGet', f=0, t=t),
+            dict(k='TyUp', f=0, t=t, ty=ty, unit=None, desc=None, ow=False), dict(k='EntGet', f=0, e=e),
+            dict(k='EntDel', f=0, e=e, name=n, bystr=True), dict(k='TyDel', f=0, t=t, ty=ty), dict(k='TyDel', f=0, t=t, ty=ty), dict(k='TyGet', f=0, t=t)]))
+    return out
+
+
+def independent_select(path, crit):
+    """the rows of `isotherms` that satisfy the criteria, read through an independent connection (SQLite evaluates the WHERE clause)"""
+    c = sqlite3.connect('file:%s?mode=ro' % path, uri=True)
+    try:
+        keys = sorted(crit)
+        sql = 'SELECT iso_type, material, temperature FROM isotherms' + (' WHERE ' + ' AND '.join('%s = ?' % k for k in keys) if keys else '')
+        return sorted((r[0], r[1], float(r[2])) for r in c.execute(sql, [crit[k] for k in keys]).fetchall())
+    finally:
+        c.close()
+
+
+def retrieval_check(path, crit, res):
+    """what isotherms_from_db returned vs the rows an independent connection reads: None, or the discrepancy"""
+    import pygaps
+    want = independent_select(path, crit or {})
+    got = sorted(('pointisotherm' if isinstance(x, pygaps.PointIsotherm) else 'modelisotherm' if isinstance(x, pygaps.ModelIsotherm) else 'isotherm',
+                  str(x.material), float(x.temperature)) for x in res)
+    if want == got:
+        return None
+    missing = list(want)
+    for g in got:
+        if g in missing:
+            missing.remove(g)
+    return ('isotherms_from_db(%r) returned %d isotherms; the file holds %d matching rows (independent connection); first rows that did not come back: %s'
+            % (crit or None, len(got), len(want), missing[:3]))
+
+
+def same_content(obj, x):
+    """is the retrieved isotherm x the stored isotherm obj, up to the KNOWN defects of the pinned tree (the extra iso_type key, integers and
+    numeric-looking text coming back as floats through the REAL column)?"""
+    import pygaps
+    if type(x) is not type(obj):
+        return False
+    a, b = obj.to_dict(), x.to_dict()
+    if 'iso_type' not in a:
+        b.pop('iso_type', None)
+    if a.keys() != b.keys():
+        return False
+    for k, va in a.items():
+        vb = b[k]
+        if k == 'material':
+            va = va['name'] if isinstance(va, dict) else str(va); vb = vb['name'] if isinstance(vb, dict) else str(vb)
+        if isinstance(va, bool) or isinstance(vb, bool):
+            if va is not vb:
+                return False
+        elif isinstance(va, int) and isinstance(vb, float):
+            if float(va) != vb:
+                return False
+        elif isinstance(va, str) and va in NUMPOOL and not isinstance(vb, str):
+            if NUMPOOL[va] != vb:
+                return False
+        elif va != vb or isinstance(va, str) != isinstance(vb, str):
+            return False
+    if isinstance(obj, pygaps.PointIsotherm):
+        if obj.pressure().tolist() != x.pressure().tolist() or obj.loading().tolist() != x.loading().tolist() or sorted(obj.other_keys) != sorted(x.other_keys):
+            return False
+        if any(obj.other_data(k).tolist() != x.other_data(k).tolist() for k in obj.other_keys):
+            return False
+    if isinstance(obj, pygaps.ModelIsotherm) and obj.model.to_dict() != x.model.to_dict():
+        return False
+    return True
+
+
 # ------------------------------------------------------------------ classification of failing steps (input pattern -> tag)
 def has_numtext(op):
     vals = []
@@ -551,36 +803,117 @@ def classify(op, kind, ctx):
 
 
 # ------------------------------------------------------------------ one campaign
-def explore(rep, tier, seed, nh=None, maxlen=None):
+def explore(rep, tier, seed, nh=None, maxlen=None, bulk=True):
     rnd = random.Random(seed)
-    nh = nh or (600 if tier == "thorough" else 110)
+    nh = nh or (500 if tier == "thorough" else 105)
     maxlen = maxlen or (40 if tier == "thorough" else 22)
-    work = os.path.join(vlib.SCRATCH, 'c08_%d' % os.getpid())
+    work = scratch_dir('c08_%d' % os.getpid())
     im = Impl(work)
     I = Intern()
     try:
         raw0 = raw_dump(im.template)
         base_names = {I.atom(r[1]) for r in raw0['adsorbates']}
         db0 = db_literal(raw0, I)
+        raw1 = raw_dump(im.lean)
+        db1 = db_literal(raw1, I)
         reg0 = '(mkReg %s [])' % zl(sorted(I.atom(x.name) for x in im.reg0[0]))
         runs = []
+        # stores holding more isotherms than any batch size the code uses (sizes read from the source under test)
+        sizes = batch_sizes(im.S)
+        B = max(sizes)
+        rep.cov['batch_sizes_in_source'] = sizes
+        bulk_sizes = []
+        if bulk:
+            n1 = B + rnd.randint(1, max(2, B // 4))
+            n2 = 2 * B + rnd.randint(1, max(2, B // 2))
+            bulk_sizes = [(n1, B), (n2, n2 // 2)]                       # (rows, rows of material m_a): exactly one batch / more than one batch match
+            if tier == 'thorough':
+                bulk_sizes += [(B, B // 2), (B + 1, B + 1), (2 * B, B), (3 * B + 7, 2 * B + 1)] + [(b + 1, b) for b in sizes if b != B]
+        for n, split in bulk_sizes:
+            H = gen_bulk(rnd, n, split)
+            # the model's cost per step grows with the square of the store: cut the history where the cubes are equal
+            cuts = sorted({int(len(H) * (k / 6.0) ** (1 / 3.0)) for k in range(1, 6)}) if n > 60 else ()
+            runs.append(run_history(im, I, H, 1, raw1, lean=True, cuts=cuts))
+        rep.cov['bulk_stores'] = [n for n, _ in bulk_sizes]
+        nbulk = len(runs)
+        for nfiles, H in gen_scenarios(rnd):
+            runs.append(run_history(im, I, H, nfiles, raw0))
         for hi in range(nh):
             nfiles = rnd.choice([1, 1, 2, 3])
             H = gen_history(rnd, nfiles, maxlen)
             runs.append(run_history(im, I, H, nfiles, raw0))
     finally:
         im.close()
-    header = HEADER + 'Definition db0 := %s.\nDefinition reg0 := %s.\nDefinition base := %s.\n' % (db0, reg0, zl(sorted(base_names)))
-    terms = ['(show_hist base %s reg0 [%s])' % ('[' + '; '.join(['db0'] * r['nfiles']) + ']',
-                                                '; '.join('(%d%%nat, %s)' % (s['f'], s['term']) for s in r['steps'])) for r in runs]
+    header = HEADER + 'Definition db0 := %s.\nDefinition db1 := %s.\nDefinition reg0 := %s.\nDefinition base := %s.\n' % (db0, db1, reg0, zl(sorted(base_names)))
+    def hist_term(start, reg, steps):
+        return '(show_hist base %s %s [%s])' % (start, reg, '; '.join('(%d%%nat, %s)' % (s['f'], s['term']) for s in steps))
+    terms = [hist_term('[' + '; '.join(['db1' if r['lean'] else 'db0'] * r['nfiles']) + ']', 'reg0', r['steps']) for r in runs[nbulk:]]
+    bterms, bmap = [], []
+    for bi, r in enumerate(runs[:nbulk]):
+        bounds = [0] + [c[0] for c in r['segs']] + [len(r['steps'])]
+        for j in range(len(bounds) - 1):
+            if j == 0:
+                start, reg = '[db1]', 'reg0'
+            else:
+                _, raw, al, ml = r['segs'][j - 1]
+                start, reg = '[%s]' % db_literal(raw, I), '(mkReg %s %s)' % (zl(al), zl(ml))      # in the case's own file only
+            bterms.append(hist_term(start, reg, r['steps'][bounds[j]:bounds[j + 1]]))
+            bmap.append(bi)
     model = None
     try:
-        model = vlib.run_coq_cases('c08m', header, 'fun x : list (list (list (list Z))) => x', terms, per_file=10, nested=True, timeout=1500)
+        # the long bulk histories are evaluated one per file, concurrently with the others
+        from concurrent.futures import ThreadPoolExecutor
+        with ThreadPoolExecutor(2) as ex:
+            fb = ex.submit(vlib.run_coq_cases, 'c08b', header, 'fun x : list (list (list (list Z))) => x', bterms, 1, 1500, True) if bterms else None
+            fr = ex.submit(vlib.run_coq_cases, 'c08m', header, 'fun x : list (list (list (list Z))) => x', terms, 10, 1500, True)
+            bres = fb.result() if fb else []
+            model = [sum((seg for seg, bi in zip(bres, bmap) if bi == k), []) for k in range(nbulk)] + fr.result()
     except RuntimeError as e:
         rep.broken_obligation('correspondence:DbModel-evaluation', str(e)[-1200:])
-    judge(rep, runs, model, I)
-    check_wf(rep, header, ['db0'])
+    judge(rep, runs, model, I, header, (raw0, raw1))
+    check_wf(rep, header, ['db0', 'db1'])
     return runs
+
+
+def implementation_verdicts(rep, items, I, header, raw0):
+    """steps on which model and implementation disagree: judge the IMPLEMENTATION's own transition (tables before / after the call, read through
+    the independent connection) by the plain dictionary model inside Coq, so that a broken correspondence comes with a concrete failing input
+    whenever the property itself is violated.  items: [(run, step index, fail function)]"""
+    work = scratch_dir('c08_again_%d' % os.getpid())
+    im = Impl(work)
+    terms, keep = [], []
+    try:
+        for r, si, fail in items:
+            H = []
+            for s in r['steps'][:si + 1]:
+                o = dict(s['op']); o.pop('through', None)
+                if o['k'] == 'IsoDel':
+                    o.pop('target', None)
+                H.append(o)
+            cap = {}
+            again = run_history(im, I, H, r['nfiles'], raw0[1] if r['lean'] else raw0[0], capture=(si, cap), lean=r['lean'])
+            st = again['steps'][si]
+            if 'before' not in cap or st['term'] != r['steps'][si]['term']:
+                continue
+            terms.append('(spec_verdict %s %s %s)' % (st['term'], db_literal(cap['before'], I), db_literal(cap['after'], I)))
+            keep.append((st, fail))
+    finally:
+        im.close()
+    if not terms:
+        return
+    try:
+        res = vlib.run_coq_cases('c08v', header, 'fun x : list Z => x', terms, per_file=1, nested=True, timeout=900)
+    except RuntimeError as e:
+        rep.broken_obligation('correspondence:dictionary-verdict-evaluation', str(e)[-800:])
+        return
+    for (st, fail), (ok, diff) in zip(keep, res):
+        accepted = st['oc'] == 'Ok'
+        if accepted != bool(ok):
+            fail('outcome', '%s: implementation %s, the plain dictionary model (applied to the tables the implementation had before the call) %s'
+                 % (_plain(st['op']), st['oc'], 'accepts' if ok else 'refuses'))
+        elif diff:
+            fail('content', '%s: the tables the implementation left differ from what the plain dictionary model predicts from the tables before the call '
+                 '(collections mask %d: 1 adsorbates, 2 materials, 4 isotherm types, 16 isotherms)' % (_plain(st['op']), diff))
 
 
 def check_wf(rep, header, names):
@@ -598,9 +931,12 @@ def check_wf(rep, header, names):
         rep.broken_obligation('hypothesis:wf-evaluation', str(e)[-800:])
 
 
-def run_history(im, I, H, nfiles, raw0):
+def run_history(im, I, H, nfiles, raw0, capture=None, lean=False, cuts=()):
+    """cuts: step indices (single-file histories) before which the file and the registries are dumped, so that the model can be evaluated on
+    the segments in parallel, each from the tables the implementation had at its start (which the previous segment compared row by row)"""
+    segs = []
     im.reset_registry()
-    paths = [im.fresh(i) for i in range(nfiles)]
+    paths = [im.fresh(i, lean) for i in range(nfiles)]
     enc0 = encode(raw0, I)
     cur = [dict(tabs=[list(t) for t in enc0], counters=list(raw0['_counters'])) for _ in range(nfiles)]
     reg = im.registry(I)
@@ -619,7 +955,7 @@ def run_history(im, I, H, nfiles, raw0):
             if op['how'] == 'absent' or not pool:
                 op['target'] = 'feedbeef' * 4; op['how'] = 'absent'
             else:
-                iid, obj, meta, spec = pool[-1] if len(pool) == 1 else pool[len(steps) % len(pool)]
+                iid, obj, meta, spec = pool[op['pick'] % len(pool)] if 'pick' in op else pool[-1] if len(pool) == 1 else pool[len(steps) % len(pool)]
                 op['target'] = iid
                 ctx['meta'] = meta
                 if op['how'] == 'object':
@@ -627,10 +963,12 @@ def run_history(im, I, H, nfiles, raw0):
                 elif op['how'] == 'retrieved':
                     im.px.n = 0
                     got = [x for x in im.S.isotherms_from_db(db_path=path, verbose=False)]
+                    ctx['retrieval'] = retrieval_check(path, None, got)
                     same = [x for x in got if x.iso_id == iid]
                     # the retrieved twin of the stored isotherm: same id if the property holds; else the one built from the same row
-                    cand = same or [x for x in got if str(x.material) == str(obj.material) and str(x.adsorbate) == str(obj.adsorbate)
-                                    and type(x) is type(obj) and {k: v for k, v in x.to_dict().items() if k != 'iso_type'}.keys() == obj.to_dict().keys()]
+                    cand = same or [x for x in got if same_content(obj, x)] or [
+                        x for x in got if str(x.material) == str(obj.material) and str(x.adsorbate) == str(obj.adsorbate)
+                        and type(x) is type(obj) and {k: v for k, v in x.to_dict().items() if k != 'iso_type'}.keys() == obj.to_dict().keys()]
                     if cand:
                         op['through'] = cand[0]; op['target'] = cand[0].iso_id; ctx['retrieved_same_id'] = bool(same); ctx['stored_id'] = iid
                     else:
@@ -649,11 +987,17 @@ def run_history(im, I, H, nfiles, raw0):
             ctx['reg_vs_file'] = (op['am'] and ((ma in regm) != (ma in mats_in_file))) or (op['aa'] and ((aa_ in rega) != (aa_ in ads_in_file)))
             ctx['leaked'] = (op['am'] and ma in leaked and ma not in mats_in_file) or (op['aa'] and aa_ in leaked and aa_ not in ads_in_file)
             ctx['meta'] = op['iso']['meta']
+        if capture and capture[0] == len(steps):
+            capture[1]['before'] = raw_dump(path)
+        if len(steps) in cuts and nfiles == 1:
+            segs.append((len(steps), raw_dump(path), sorted(I.atom(x.name) for x in im.AL), sorted(I.atom(x.name) for x in im.ML)))
         oc, nst, term, res, obj = apply_op(im, op, path, I)
         # state afterwards: every file, through an independent connection
         after = []
         for i, p in enumerate(paths):
             raw = raw_dump(p)
+            if capture and capture[0] == len(steps) and i == f:
+                capture[1]['after'] = raw
             after.append(dict(tabs=encode(raw, I), counters=raw['_counters'], fk=raw['_fk']))
         reg2 = im.registry(I)
         st = dict(f=f, op=op, oc=oc, n=nst, term=term, ctx=ctx,
@@ -661,6 +1005,12 @@ def run_history(im, I, H, nfiles, raw0):
                   others_changed=[i for i in range(nfiles) if i != f and (after[i]['tabs'] != cur[i]['tabs'] or after[i]['counters'] != cur[i]['counters'])],
                   fk=after[f]['fk'], ret=norm_ret(op, res, I, {I.atom(r[1]) for r in raw0['adsorbates']}), checks=[])
         changed_file = after[f]['tabs'] != cur[f]['tabs']
+        if ctx.get('retrieval'):
+            st['checks'].append(('retrieval-incomplete', ctx['retrieval']))
+        if oc == 'Ok' and op['k'] == 'IsoGet':
+            bad = retrieval_check(path, op['crit'], res)
+            if bad:
+                st['checks'].append(('retrieval-incomplete', bad))
         if oc != 'Ok' and changed_file:
             st['checks'].append(('refused-changed-file', 'refused call changed the database file'))
         if oc != 'Ok' and reg2 != reg:
@@ -678,10 +1028,19 @@ def run_history(im, I, H, nfiles, raw0):
                 st['checks'].append(('roundtrip', 'uploaded %s %r comes back as %r, stored %r' % (op['e'], obj.name, have, want)))
         if oc == 'Ok' and op['k'] == 'IsoUp':
             uploaded[f].append((obj.iso_id, obj, op['iso']['meta'], op['iso']))
+        if oc == 'Ok' and op['k'] == 'IsoUp' and op.get('verify', True):
             im.px.n = 0
             got = im.S.isotherms_from_db(db_path=path, verbose=False)
+            bad = retrieval_check(path, None, got)
+            if bad:
+                st['checks'].append(('retrieval-incomplete', bad))
             if not any(x.iso_id == obj.iso_id for x in got):
                 st['checks'].append(('roundtrip', 'stored isotherm %s is not among the retrieved ones (ids %s)' % (obj.iso_id, [x.iso_id for x in got][:4])))
+                # ... which on the pinned tree is always so (iso_type leak).  Beyond the known defects: does it come back with equal content?
+                if not any(same_content(obj, x) for x in got):
+                    twin = [x for x in got if type(x) is type(obj) and str(x.material) == str(obj.material) and float(x.temperature) == float(obj.temperature)]
+                    st['checks'].append(('roundtrip-content', 'stored isotherm %s with parameters %r does not come back with equal content; closest retrieved: %r'
+                                         % (obj.iso_id, {k: v for k, v in obj.to_dict().items() if k not in UNITS}, [{k: v for k, v in x.to_dict().items() if k not in UNITS} for x in twin[-2:]])))
         if op['k'] == 'IsoDel' and op['how'] == 'retrieved' and not ctx.get('retrieved_same_id', True):
             st['checks'].append(('delete-through-retrieved', 'isotherm %s retrieved from the file has id %s; deleting through it -> %s' % (ctx['stored_id'], op['target'], oc)))
         if oc == 'Ok' and op['k'] == 'IsoDel':
@@ -691,7 +1050,7 @@ def run_history(im, I, H, nfiles, raw0):
         steps.append(st)
         cur = [dict(tabs=a['tabs'], counters=a['counters']) for a in after]
         reg = reg2
-    return dict(nfiles=nfiles, steps=steps)
+    return dict(nfiles=nfiles, steps=steps, lean=lean, segs=segs)
 
 
 def _pairs(o):
@@ -705,8 +1064,9 @@ def _veq(a, b):
     return a == b
 
 
-def judge(rep, runs, model, I):
+def judge(rep, runs, model, I, header=None, raw0=None):
     n_steps = n_dis = 0
+    to_judge = []
     hist = {}
     nontrivial = set()
     for hi, r in enumerate(runs):
@@ -716,8 +1076,10 @@ def judge(rep, runs, model, I):
             key = '%s/%s' % (op['k'] + (':' + op.get('e', op.get('t', '')) if op.get('e') or op.get('t') else ''), st['oc'])
             hist[key] = hist.get(key, 0) + 1
             replay = {'nfiles': r['nfiles'], 'ops': [_plain(s['op']) for s in r['steps'][:si + 1]], 'failing_step': si, 'outcome': st['oc']}
+            if r['lean']:
+                replay['start'] = 'lean file: schema (PRAGMAS) + isotherm types + adsorbates %s only' % SHIPPED
 
-            def fail(kind, what):
+            def fail(kind, what, op=op, st=st, replay=replay):
                 rep.failure(classify(op, kind, st['ctx']), what, dict(replay, kind=kind))
             for kind, what in st['checks']:
                 fail(kind, what)
@@ -741,9 +1103,15 @@ def judge(rep, runs, model, I):
                     what = [('outcome', OC.get(moc), st['oc']), ('statements', mn, st['n']), ('counters', mcount, st['counters'])]
                     what += [('table %d' % i, mdiff[i], st['diff'][i]) for i in range(12)]
                     if st['oc'] == 'Ok' and mret != st['ret']:
-                        what.append(('result', mret, st['ret']))
+                        firstdiff = next((i for i, (a, b) in enumerate(zip(mret, st['ret'])) if a != b), min(len(mret), len(st['ret'])))
+                        what.append(('result', {'items': len(mret), 'item %d' % firstdiff: mret[firstdiff:firstdiff + 1]},
+                                     {'items': len(st['ret']), 'item %d' % firstdiff: st['ret'][firstdiff:firstdiff + 1]}))
                     rep.broken_obligation('correspondence:DbModel-vs-implementation',
-                                          {'history': hi, 'step': si, 'op': _plain(op), '(what, model, implementation)': [w for w in what if w[1] != w[2]][:4], 'replay': replay})
+                                          {'history': hi, 'step': si, 'op': _plain(op), '(what, model, implementation)': [w for w in what if w[1] != w[2]][:4],
+                                           'replay': dict(replay, ops=replay['ops'][-12:], note='last 12 operations of %d' % len(replay['ops'])) if len(replay['ops']) > 40 else replay})
+                # from the first disagreement on the model's state is not the implementation's: judge the implementation's own transition instead
+                if header is not None and len(to_judge) < 4 and not any(t[0] is r for t in to_judge) and op['k'] not in ('EntGet', 'TyGet', 'IsoGet'):
+                    to_judge.append((r, si, fail))
                 continue
             # the dictionary model's verdict on this step (valid for the implementation because the tables agree)
             accepted = st['oc'] == 'Ok'
@@ -753,12 +1121,16 @@ def judge(rep, runs, model, I):
                 fail('content', '%s: content after the call differs from the dictionary model (collections mask %d)' % (_plain(op), spec_diff))
             elif accepted and any(a or b for a, b in st['diff'][:10]):
                 nontrivial.add(json.dumps(_plain(op), sort_keys=True, default=str))
+    if to_judge:
+        implementation_verdicts(rep, to_judge, I, header, raw0)
     rep.cov['evaluations'] += n_steps
     rep.cov['distinct_nontrivial'] += len(nontrivial)
     rep.cov['rule'] = ('random histories of the 22 public functions over 1-3 fresh db_create files (uploads with/without overwrite and auto-insert, '
                        'deletions by name/object/id/retrieved object, retrievals with/without criteria, duplicates, absent items, None / numeric-looking '
-                       'text / list values); non-trivial = distinct accepted operations that changed a table, agreed with the model on every row and '
-                       'were accepted with equal content by the dictionary model')
+                       'text / list / zero-like (0, 0.0, -0.0, empty string, False) values) + stores holding more isotherms than one and than two batches of the '
+                       'batch size found in the source (retrieved with and without criteria, counted against rows read through an independent connection, '
+                       'deleted through retrieved objects of the last batch); non-trivial = distinct accepted operations that changed a table, agreed with the '
+                       'model on every row and were accepted with equal content by the dictionary model')
     d = rep.cov.setdefault('input_distribution', {})
     for k, v in hist.items():
         d[k] = d.get(k, 0) + v
@@ -775,7 +1147,7 @@ def _plain(op):
 
 
 def run(rep, tier, seed):
-    vlib.standard_proof_phase(rep, 'C08', extra_targets=['Db/DbShow.vo'])
+    vlib.standard_proof_phase(rep, 'C08', extra_targets=EXTRA_TARGETS)
     explore(rep, tier, seed)
     if rep.broken and not rep.violations and tier != 'thorough':
         explore(rep, 'thorough', seed + 1, nh=400)
@@ -791,15 +1163,16 @@ def replay(d):
     import logging
     logging.disable(logging.CRITICAL)
     r = d['replay']
-    work = os.path.join(vlib.SCRATCH, 'c08_replay_%d' % os.getpid())
+    work = scratch_dir('c08_replay_%d' % os.getpid())
     im = Impl(work)
     I = Intern()
     try:
-        raw0 = raw_dump(im.template)
+        lean = bool(r.get('start'))
+        raw0 = raw_dump(im.lean if lean else im.template)
         H = r['ops']
         for op in H:
             op.pop('through', None)
-        out = run_history(im, I, H, r['nfiles'], raw0)
+        out = run_history(im, I, H, r['nfiles'], raw0, lean=lean)
         for st in out['steps']:
             print(_plain(st['op']), '->', st['oc'], 'statements', st['n'], 'checks', st['checks'])
     finally:
